@@ -135,6 +135,23 @@ func monitorRenew(sc NScenario, o nOutcome, dist func(string)) (vs []viol) {
 		}
 	} else if o.InitErr {
 		add("run-returned-early", "Run returned (%s) although the initial fetch succeeded", o.RunRet)
+	} else if o.ReturnedAlive && o.Panic == "" {
+		// Run has returned while the context it was given is alive (the harness cancels it only after
+		// the last step): nothing renews or retries any more, whatever the clock does from here on
+		last := "none answered"
+		for k := len(o.Reqs) - 1; k >= 0; k-- {
+			if answered(k) {
+				q := o.Reqs[k]
+				last = fmt.Sprintf("last answered request %d: reply %s", k, q.Kind)
+				if q.Kind == kFail || q.ErrKind != "" {
+					last += fmt.Sprintf(", error kind %s %q (errors.Is Canceled=%v DeadlineExceeded=%v; ctx of the fetch alive=%v)",
+						q.ErrKind, q.ErrText, q.ErrIs[0], q.ErrIs[1], q.CtxAlive)
+				}
+				break
+			}
+		}
+		add("run-returned-while-ctx-alive", "Run returned (%s) after %d issuer requests and %d clock/issuer actions while its context was alive (%s); the certificate is never renewed again",
+			o.RunRet, o.ReturnedReqs, o.ReturnedAt, last)
 	} else if o.RunRet != "nil" {
 		add("run-not-stopped-by-ctx", "Run returned %q after its ctx was cancelled", o.RunRet)
 	}
@@ -230,10 +247,17 @@ func monitorRenew(sc NScenario, o nOutcome, dist func(string)) (vs []viol) {
 				dist("renew:cert-not-yet-valid")
 			}
 		}
-		// failed renewals retried every 10 s (clause 4)
+		// failed renewals retried every 10 s (clause 4) — whatever the error says
 		for f := 1; f < len(o.Reqs); f++ {
 			if good(f) || !answered(f) {
 				continue
+			}
+			if ek := o.Reqs[f].ErrKind; ek != "" {
+				dist("renew:failed-renewal-errkind-" + ek)
+				if o.Reqs[f].ErrIs[0] || o.Reqs[f].ErrIs[1] {
+					dist("renew:failed-renewal-error-is-ctx-error(run-ctx-alive)")
+				}
+				dist("renew:failed-renewal-at-request-" + bucket(f))
 			}
 			due := o.Reqs[f].Answered.Add(10 * time.Second) // 10 s after the failed fetch returned
 			var tau time.Time
@@ -254,7 +278,7 @@ func monitorRenew(sc NScenario, o nOutcome, dist func(string)) (vs []viol) {
 					dist("retry:checked")
 				}
 			} else if found {
-				add("retry-not-10s", "request %d failed (returned at %v); clock reached %v (>= +10 s) but no retry was made", f, rel(o.Reqs[f].Answered), rel(tau))
+				add("retry-not-10s", "request %d failed (returned at %v, reply %s, error kind %q); clock reached %v (>= +10 s) but no retry was made", f, rel(o.Reqs[f].Answered), o.Reqs[f].Kind, o.Reqs[f].ErrKind, rel(tau))
 			}
 		}
 	}
@@ -327,7 +351,13 @@ func scString(sc NScenario) string {
 	s := fmt.Sprintf("dir=%v hold=%v script=", sc.Dir, sc.Hold)
 	for _, it := range sc.Script {
 		if it.Kind == kOK || it.Kind == kAnchorErr || it.Kind == kWriteErr || it.Kind == kNoID {
-			s += fmt.Sprintf("%s(%v,%v) ", it.Kind, time.Duration(it.A), time.Duration(it.B))
+			e := ""
+			if it.Err != "" {
+				e = "[" + it.Err + "]"
+			}
+			s += fmt.Sprintf("%s%s(%v,%v) ", it.Kind, e, time.Duration(it.A), time.Duration(it.B))
+		} else if it.Err != "" {
+			s += it.Kind + "[" + it.Err + "] "
 		} else {
 			s += it.Kind + " "
 		}
